@@ -57,6 +57,10 @@ Judge(e) ==
         <<"C01", (~e.faulted) => ChainOK(final) >>,
         <<"C02", (~e.faulted) =>
                    \A r, s \in accepted : (r # s /\ reqs[r].arg = reqs[s].arg) => seedcs.latest = Nil /\ FALSE >>,
+        \* GetChildVersion while a storage step fails: an answer that is not an error must still be the right one
+        \* (a failed lookup must never be reported as "no such child" / "gone")
+        <<"C08f", (e.faulted /\ Cardinality(rids) = 1 /\ reqs[1].op = "GetChildVersion" /\ resps[1].kind \notin {"error", "panic", "timeout"}) =>
+                    RespMatches(UnitApply(e.cfg, seedcs, reqs[1], <<1, "m">>).resp, resps[1]) >>,
         <<"C05", e.faulted =>
                    ( Cardinality(rids) = 1
                      /\ C05_Round(e.cfg, seedcs, reqs[1], resps[1], final, [i \in DOMAIN e.follow |-> [req |-> e.follow[i].req, resp |-> e.follow[i].resp]],
